@@ -1106,11 +1106,11 @@ pub fn run_once(cfg: &ConcCfg, shard: &mut Shard, keep_sample: bool) -> RunOutco
             Some(who) => {
                 // not a wall-clock verdict: nobody is running, nobody can be woken, the supervisor only waits
                 violation(
-                    "C08",
+                    "C08,C01,C07",
                     "blocked-forever",
-                    "blocked-forever:conc:asleep-and-no-queue-operation-in-progress".to_string(),
+                    "blocked-forever:conc:waiting-and-no-queue-operation-in-progress".to_string(),
                     format!(
-                        "25 s after the scenario started, over 40 looks 50 ms apart no thread passed a hook site (no queue operation, in particular no notify, is in progress) while a consumer sat asleep in the kernel inside BlockingWait::wait without gaining CPU time: nothing is left that could wake it [{}] ({})",
+                        "25 s after the scenario started, over 40 looks 50 ms apart no thread passed a hook site (no queue operation, in particular no send, sender drop or notify, is in progress) while consumers sit inside Wait::wait: nothing is left that could release them, whatever was accepted for them is never delivered and the end is never reported [{}] ({})",
                         who,
                         cfg.describe()
                     ),
@@ -1536,7 +1536,7 @@ pub fn gen_cfg(rng: &mut Rng, family: Family, o: &GenOpts) -> ConcCfg {
     };
     let wait = match rng.below(4) {
         0 => WaitKind::Busy,
-        1 => WaitKind::Yield(rng.below(3) as usize, 1 + rng.below(3) as usize),
+        1 => WaitKind::Yield(rng.below(3) as usize, rng.below(4) as usize),
         2 => WaitKind::Block(0, 0),
         _ => WaitKind::Block(50, 50),
     };
